@@ -169,6 +169,12 @@ func runC20(c *Ctx) {
 		c.R.Harness = "seed connection produced no session: " + seed.Describe()
 		return
 	}
+	// the target connection may meet a HelloRetryRequest (every target lists P-384 without a share):
+	// an injected PSK has to survive it like a loaded one
+	if ver == tls.VersionTLS13 && ch.Bool(30, "target-hrr") {
+		scfg.CurvePreferences = []tls.CurveID{tls.CurveP384}
+		c.Probe("target-hrr")
+	}
 	css := seedCache.last
 	ticket, sstate, err := css.ResumptionState()
 	if err != nil || sstate == nil {
